@@ -68,6 +68,9 @@ var (
 type watch struct {
 	cancel     func()
 	start, end string
+	// served is set once the goroutine that sends this watch's events runs: from then on only that goroutine
+	// answers for the watch, so that `canceled` is the LAST response naming it
+	served bool
 }
 
 func (s *RPCServer) Watch(ws etcdserverpb.Watch_WatchServer) error {
@@ -113,7 +116,7 @@ func (s *RPCServer) Watch(ws etcdserverpb.Watch_WatchServer) error {
 		} else if cancelRequest := msg.GetCancelRequest(); cancelRequest != nil {
 			s.metricCli.EmitCounter("watch.client.cancel", 1)
 			klog.InfoS("receive watch cancel request", "id", w.id, "watchID", cancelRequest.GetWatchId())
-			w.Cancel(msg.GetCancelRequest().WatchId, nil, false)
+			w.cancelByClient(msg.GetCancelRequest().WatchId)
 		} else {
 			s.metricCli.EmitCounter("watch.request.unsupported", 1)
 			klog.Info("watch receive message unsupported type")
@@ -172,6 +175,11 @@ func (w *watcher) Start(c context.Context, r *etcdserverpb.WatchCreateRequest) {
 		go w.List(ctx, id, r)
 	} else {
 		w.metricCli.EmitCounter("watch.watch", 1)
+		w.Lock()
+		if c, ok := w.watches[id]; ok {
+			c.served = true
+		}
+		w.Unlock()
 		go w.Watch(ctx, id, r, sub)
 		klog.InfoS("watch start", "id", id, "count", watchCount, "key", key, "revision", r.StartRevision)
 	}
@@ -193,13 +201,32 @@ func (w *watcher) subscribe(ctx context.Context, r *etcdserverpb.WatchCreateRequ
 	return sub
 }
 
+// cancelByClient handles a client's cancel request. A watch whose goroutine is running is only told to stop: the
+// goroutine sends the single `canceled` response after its last event response (etcd answers a cancel once, and sends
+// nothing for the watch afterwards; clientv3 panics on a second `canceled` response and on an event response after
+// `canceled` for a watch it still has registered). Anything else (a range stream, whose goroutine never answers) is
+// answered here.
+func (w *watcher) cancelByClient(id int64) {
+	w.Lock()
+	if c, ok := w.watches[id]; ok && c.served {
+		if c.cancel != nil {
+			c.cancel()
+		}
+		w.Unlock()
+		return
+	}
+	w.Unlock()
+	w.Cancel(id, nil, false)
+}
+
 func (w *watcher) Cancel(id int64, err error, compact bool) {
 	klog.InfoS("watch cancel", "watcher", w.id, "watch", id, "err", err, "compact", compact)
 	var tags []metrics.T
 	tags = append(tags, metrics.Tag("compact", strconv.FormatBool(compact)))
 	w.metricCli.EmitCounter("watch.cancel", 1, tags...)
 	w.Lock()
-	if c, ok := w.watches[id]; ok {
+	c, registered := w.watches[id]
+	if registered {
 		klog.InfoS("cancel context", "watcher", w.id, "watch", id, "start", c.start, "end", c.end)
 		if c.cancel != nil {
 			c.cancel()
@@ -207,6 +234,13 @@ func (w *watcher) Cancel(id int64, err error, compact bool) {
 		delete(w.watches, id)
 	}
 	w.Unlock()
+	if !registered {
+		// answered already (by the receive loop on a client's cancel request, or by the watch goroutine): a
+		// watch is cancelled with exactly ONE `canceled` response, as etcd does. clientv3 closes a channel per
+		// `canceled` response naming a watch it still has registered - a second one kills the client process,
+		// i.e. a follower that forwards its clients' watches to this node
+		return
+	}
 	// if compact is true, apiserver reflector watch will return with err, which will trigger re-list & re-watch (detail in etcd/clientv3/watch.go watchGrpcStream.run)
 	// else, apiserver reflector watch will return nil, which will trigger re-watch
 	var compactRevision int64
